@@ -90,28 +90,26 @@ def refAmend : Val → Val → Option Val
     | none => none
   | _, _ => none
 
-/-! ## Amend — implementation  (dyads.py eval_dyad_amend, 50–78)
+/-! ## Amend — implementation  (dyads.py eval_dyad_amend, after 12321e2)
 
     if not (isinstance(a, (str,list)) or isarray(a)): raise RuntimeError
     if len(b) <= 1: return a
+    v = b[0]
     if isinstance(a, str):
-        r = str_to_chr_arr(a); q = str_to_chr_arr(b[0])
+        q = str(v); r = a
         for i in b[1:]:
-            try: r[i:i+len(q)] = q
-            except ValueError:
-                r = r.astype(object)
-                if i > len(r): RangeError(i)            # constructed, never raised
-                elif i == len(r): r = numpy.append(r, b[0])
-                else: r[i] = b[0]
-        return "".join(["".join(x) for x in r])
-    r = np.array(a)
-    if is_list(b[0]):
-        r = r.tolist()
-        for i in b[1:]: r[i] = b[0]
-        r = kg_asarray(r)
-    else:
-        numpy.put(r, numpy.asarray(b[1:], dtype=int), b[0])
-    return r                                                                                  -/
+            i = int(i)
+            if i < 0: i += len(r)
+            if i < 0 or i > len(r): raise RangeError(i)
+            r = r[:i] + q + r[i+len(q):]
+        return r
+    r = np.array(a); kind = r.dtype.kind
+    if r.ndim == 1 and not is_list(v) and (kind == 'O' or (kind == 'f' and is_number(v))
+                                           or (kind in 'iu' and is_integer(v))):
+        numpy.put(r, numpy.asarray(b[1:], dtype=int), v); return r
+    r = [x for x in r]
+    for i in b[1:]: r[int(i)] = v
+    return kg_asarray(r)                                                                      -/
 
 /-- `xs[i] = v` for a Python / numpy integer index (negative counts from the end; none = IndexError) -/
 def pySet {α} (xs : List α) (i : Int) (v : α) : Option (List α) :=
@@ -125,65 +123,78 @@ def pySetAll {α} (xs : List α) (v : α) : List Int → Option (List α)
     | some r => pySetAll r v is
     | none => none
 
-/-- 60–68 for one index `i ≥ 0`.  `r` is the character array; a slot holds one character or,
-    after line 66/68, a whole string.  numpy slice assignment `r[i:i+m] = q`: the slice has
-    `L = min(i+m, n) - min(i, n)` slots; it succeeds when `L = m`, broadcasts when `m = 1` (here
-    only into `L = 0` slots: nothing happens), raises ValueError otherwise. -/
-def amendStep (q : List Nat) (r : List (List Nat)) (i : Nat) : List (List Nat) :=
-  let n := r.length
-  let m := q.length
-  let lo := min i n
-  let hi := min (i + m) n
-  if hi - lo == m then r.take lo ++ q.map (fun c => [c]) ++ r.drop hi       -- 60
-  else if m == 1 then r                                                      -- 60: broadcast into 0 slots
-  else if i > n then r                                                       -- 63–64
-  else if i == n then r ++ [q]                                               -- 65–66
-  else r.set i q                                                             -- 67–68
+/-- the loop of the string path: `r = r[:i] + q + r[i+len(q):]` per index; none = RangeError -/
+def amendStrLoop (q : List Nat) : List Nat → List Int → Option (List Nat)
+  | r, [] => some r
+  | r, i :: is =>
+    let j := if i < 0 then i + (r.length : Int) else i
+    if j < 0 ∨ j > (r.length : Int) then none
+    else amendStrLoop q (splice r q j.toNat) is
 
-def implAmendStr (cs q : List Nat) (is : List Int) : Res :=
-  if is.any (fun i => decide (i < 0)) then .unmodelled                       -- negative slice bounds
-  else .ok (.str ((is.foldl (fun r i => amendStep q r i.toNat) (cs.map fun c => [c])).flatten))   -- 69
+/-- `kg_asarray` of a freshly built list of stored members: a regular nest of numbers becomes one
+    array (`Ext1.npCoerce`); member arrays whose shapes agree on leading dimensions only are
+    broadcast into one object array by `np.asarray(…, dtype=object)` — not modelled -/
+def repack (r : List Val) : Res :=
+  if (numShape (.list r)).isNone && Ext1.objArrayClash r then .unmodelled
+  else .ok (Ext1.npCoerce (.list r))
+
+/-- a stored rank-1 array holds reals (dtype kind 'f'; the empty array is float64 too) -/
+def realKind (a : Val) : Bool :=
+  match a with
+  | .list xs => xs.isEmpty || Ext1.hasReal a
+  | _ => false
+
+/-- the `numpy.put` fast path is taken: rank 1, the value is no list and fits the dtype -/
+def putFits (a v : Val) : Bool :=
+  match v with
+  | .list _ => false
+  | _ =>
+    match numShape a with
+    | none => true                                            -- a rank-1 object array (stored)
+    | some s => s.length == 1 && (if realKind a then v.isNum else match v with | .int _ => true | _ => false)
+
+/-- dictionaries and :undefined as the value: not modelled -/
+def isOpaqueV : Val → Bool
+  | .dict _ => true
+  | .undef => true
+  | _ => false
 
 def implAmendList (a : Val) (xs : List Val) (v : Val) (is : List Int) : Res :=
-  match v with
-  | .list _ =>                                                               -- 71–75
-    match pySetAll xs v is with
-    | none => .err
-    | some r => .ok (Ext1.npCoerce (.list r))
-  | .dict _ => .unmodelled
-  | .undef => .unmodelled
-  | _ =>                                                                     -- 77 numpy.put
-    if xs.isEmpty then .err                                                  -- cannot replace elements of an empty array
+  if isOpaqueV v then .unmodelled
+  else if putFits a v then
+    if xs.isEmpty then .err                                   -- cannot replace elements of an empty array
     else
-      match numShape a with
-      | none => lift ((pySetAll xs v is).map .list)                          -- rank-1 object array
-      | some s =>
-        if isText v then .err                                                -- int("x") / float("x"): ValueError
-        else
-          let intArr := !Ext1.hasReal a
-          match v, intArr with
-          | .real _, true => .unmodelled                                     -- the real is truncated by the cast
-          | _, _ =>
-            let v' := if intArr then v else Ext1.toReal v
-            if s.length == 1 then lift ((pySetAll xs v' is).map .list)
-            else                                                             -- put indexes the FLATTENED array
-              match pySetAll (flattenAll a) v' is with
-              | none => .err
-              | some flat => .ok (Ext2.npReshape s flat)
+      let v' := if (numShape a).isSome && realKind a then Ext1.toReal v else v    -- stored as float64
+      lift ((pySetAll xs v' is).map .list)
+  else
+    match pySetAll xs v is with                               -- r[int(i)] = v on the list of members
+    | none => .err
+    | some r => repack r
+
+/-- Python `str(n)` -/
+def intStr (n : Int) : List Nat :=
+  if n < 0 then 45 :: Ext2.natDigits (n.natAbs + 1) n.natAbs else Ext2.natDigits (n.natAbs + 1) n.natAbs
+
+/-- `str(v)` for the value kinds modelled (reals, lists: Python's repr text is not modelled) -/
+def amendText : Val → Option (List Nat)
+  | .chr c => some [c]
+  | .str s => some s
+  | .sym s => some s
+  | .int n => some (intStr n)
+  | _ => none
 
 def implAmend (a b : Val) : Res :=
   match a, b with
   | .list xs, .list bs =>
     if Ext1.notStored a || Ext1.notStored b then .unmodelled else
     match bs with
-    | [] => .ok a                                                            -- 53–54
+    | [] => .ok a
     | [_] => .ok a
     | v :: ixs =>
       match Ext1.intList ixs with
       | none => .unmodelled
       | some is => implAmendList a xs v is
   | .str cs, .list bs =>
-    if Ext1.notStored b then .unmodelled else
     match bs with
     | [] => .ok a
     | [_] => .ok a
@@ -191,10 +202,9 @@ def implAmend (a b : Val) : Res :=
       match Ext1.intList ixs with
       | none => .unmodelled
       | some is =>
-        match v with
-        | .chr c => implAmendStr cs [c] is
-        | .str s => implAmendStr cs s is
-        | _ => .unmodelled
+        match amendText v with                                -- q = str(v)
+        | none => .unmodelled
+        | some q => lift ((amendStrLoop q cs is).map .str)
   | _, _ => .unmodelled
 
 /-! ## Amend-in-Depth and Index-in-Depth — reference
@@ -256,70 +266,75 @@ def refIndexDepth : Val → Val → Option Val
     | _, _ => none
   | _, _ => none
 
-/-! ## Amend-in-Depth — implementation  (dyads.py 81–107)
+/-! ## Amend-in-Depth — implementation  (dyads.py, after 187c70d)
 
-    def _e_dyad_amend_in_depth(p, q, v):
-        if isarray(q) and len(q) > 1:
-            r = _e(p[q[0]], q[1:] if len(q) > 2 else q[1], v)
-            p = array(p, dtype=r.dtype); p[q[0]] = r; return p
-        else:
-            p = array(p, dtype=object) if isinstance(v, (str, KGSym)) else array(p)
-            p[q] = v; return p
-    eval_dyad_amend_in_depth(a, b) = _e(a, b[1:], b[0])
+    def _e_dyad_amend_in_depth(p, q, v, backend):
+        if not is_list(p): raise IndexError("too many indices")
+        kind = p.dtype.kind
+        if p.ndim == len(q) and not is_list(v) and ((kind == 'f' and is_number(v))
+                                                    or (kind in ('i','u') and is_integer(v))):
+            p = array(p); p[tuple(q)] = v; return p
+        r = [x for x in p]
+        r[q[0]] = v if len(q) == 1 else _e(r[q[0]], q[1:], v, backend)
+        return kg_asarray(r)
+    eval_dyad_amend_in_depth(a, b): if len(b) <= 1: return a
+                                    return _e(a, [int(i) for i in b[1:]], b[0], backend)      -/
 
-  Modelled: `a` a regular nest of numbers (one N-d array; sub-arrays are N-d arrays again, so
-  `array(p, dtype=r.dtype)` succeeds), or any stored list with exactly one index; the value an
-  integer or a character / string / symbol (a real value makes `b` one float array whose "indices"
-  are floats: IndexError — `b` is then `notStored`). -/
-
-/-- the recursion for `len(q) ≥ 2` down to the scalar last index -/
-def aidWalk : Val → List Int → Val → Res
-  | _, [], _ => .unmodelled
-  | .list xs, [i], v =>                                       -- p[q] = v, q a scalar
-    if xs.all (fun x => !isListV x) then lift ((pySet xs i v).map .list)
-    else .unmodelled                                          -- p has rank ≥ 2: v is broadcast over a row
+/-- `p[tuple(q)] = v` on an N-d numeric array with N = len(q) -/
+def multiSet : Val → List Int → Val → Option Val
+  | _, [], _ => none
+  | .list xs, [i], v => (pySet xs i v).map .list
   | .list xs, i :: j :: r, v =>
-    match Ext1.pyIndex xs i with                              -- p[q[0]]
-    | none => .err
+    match Ext1.pyIndex xs i with
+    | none => none
     | some sub =>
-      match aidWalk sub (j :: r) v with
-      | .ok y => lift ((pySet xs i y).map .list)              -- p[q[0]] = r
-      | e => e
-  | _, _ :: _, _ => .err                                      -- a 0-d array: too many indices
+      match multiSet sub (j :: r) v with
+      | some y => (pySet xs i y).map .list
+      | none => none
+  | _, _ :: _, _ => none
 
-/-- the value as the array will hold it (an integer stored into a float64 array becomes a real);
-    `none` = a value kind that is not modelled -/
-def aidValue (a v : Val) : Option Val :=
+/-- the direct path is taken: a numeric ndarray with ndim == len(q), the value fits the dtype -/
+def aidDirect (p : Val) (n : Nat) (v : Val) : Bool :=
   match v with
-  | .int _ => if (numShape a).isSome && Ext1.hasReal a then some (Ext1.toReal v) else some v
-  | .chr _ => some v
-  | .str _ => some v
-  | .sym _ => some v
-  | _ => none
+  | .list _ => false
+  | _ =>
+    match p, numShape p with
+    | .list _, some s => s.length == n && (if realKind p then v.isNum else match v with | .int _ => true | _ => false)
+    | _, _ => false
+
+def aidRec : Val → List Int → Val → Res
+  | _, [], _ => .unmodelled
+  | .list xs, i :: rest, v =>
+    if aidDirect (.list xs) (rest.length + 1) v then
+      lift (multiSet (.list xs) (i :: rest) (if realKind (.list xs) then Ext1.toReal v else v))
+    else
+      match rest with
+      | [] =>
+        match pySet xs i v with                               -- r[q[0]] = v
+        | none => .err
+        | some r => repack r
+      | j :: rest' =>
+        match Ext1.pyIndex xs i with                          -- r[q[0]]
+        | none => .err
+        | some sub =>
+          match aidRec sub (j :: rest') v with
+          | .ok y =>
+            match pySet xs i y with
+            | none => .err
+            | some r => repack r
+          | e => e
+  | _, _ :: _, _ => .err                                      -- not is_list(p): IndexError
 
 def implAmendDepth (a b : Val) : Res :=
   if Ext1.notStored a || Ext1.notStored b then .unmodelled else
   match a, b with
-  | .list xs, .list (v :: ixs) =>
+  | .list _, .list [] => .ok a                                -- len(b) <= 1
+  | .list _, .list [_] => .ok a
+  | .list _, .list (v :: ixs) =>
     match Ext1.intList ixs with
     | none => .unmodelled
     | some is =>
-      match aidValue a v with
-      | none =>
-        -- a list value: `b` is an object array; with one index `b[1:]` is no index array (IndexError),
-        -- with more the numeric target slot refuses a sequence (ValueError) or an index is out of range
-        -- (fewer indices than dimensions: the list is broadcast over a row — not modelled)
-        match v, numShape a with
-        | .list _, some s => if is.length == 1 || (is.length ≥ 2 && is.length ≥ s.length) then .err else .unmodelled
-        | _, _ => .unmodelled
-      | some v' =>
-        match is with
-        | [] => if isText v then .unmodelled else .ok a       -- p[empty index array] = v
-        | [i] =>                                              -- q = b[1:], an ARRAY holding one index
-          if isText v then .err                               -- b is an object array: not an index array
-          else if (numShape a).isSome && xs.any isListV then .unmodelled   -- rank ≥ 2: v is broadcast over row i
-          else lift ((pySet xs i v').map .list)               -- rank 1 (numeric or object array)
-        | _ => if (numShape a).isSome then aidWalk a is v' else .unmodelled
+      if isOpaqueV v then .unmodelled else aidRec a is v
   | _, _ => .unmodelled
 
 /-! ## Index-in-Depth — implementation  (dyads.py 476)
@@ -496,7 +511,9 @@ def implCharL : List Val → Option (List Val)
     | _, _ => none
 end
 
-def implChar (a : Val) : Res := lift (implCharRec a)
+def implChar (a : Val) : Res :=
+  if Ext1.hasObjRank2 a then .unmodelled                      -- the literal is not what the interpreter holds
+  else lift (implCharRec a)
 
 /-! ## Undefined
 
@@ -516,14 +533,11 @@ def implUndefined : Val → Res
     Write the external representation of "a" to a string and return it. "$" is an atomic
     operator.  $123 --> "123", $"test" --> "test", $0cx --> "x", $:foo --> ":foo".
 
-    monads.py 144: f":{a}" if isinstance(a, KGSym)
-                   else vec_fn(a, lambda x: eval_monad_format(x)) if is_list(a) else str(a)
-    base.py 476 vec_fn: object arrays member by member (`vec_fn(x, f) if _is_list(x) else f(x)`),
-    anything else `f(a)` — for a NUMERIC array that is eval_monad_format(a) again: RecursionError. -/
-
-/-- Python `str(n)` -/
-def intStr (n : Int) : List Nat :=
-  if n < 0 then 45 :: Ext2.natDigits (n.natAbs + 1) n.natAbs else Ext2.natDigits (n.natAbs + 1) n.natAbs
+    monads.py eval_monad_format (after 175176c):
+        if isinstance(a, KGSym): return f":{a}"
+        if is_list(a): return a if is_empty(a) else backend.rec_fn(a, format)
+        return str(a)
+    base.py rec_fn: kg_asarray([rec_fn(x, f) for x in a]) if _is_list(a) else f(a)             -/
 
 def fmtAtom : Val → Option Val
   | .int n => some (.str (intStr n))
@@ -534,14 +548,27 @@ def fmtAtom : Val → Option Val
 
 def refFormat (a : Val) : Option Val := if hasEmptyList a then none else refA1 fmtAtom a
 
+/-- a regular numeric nest with a dimension of length 0 -/
+def zeroSized (v : Val) : Bool :=
+  match numShape v with
+  | some s => s.contains 0
+  | none => false
+
+/-- `kg_asarray` of formatted members (strings and lists of strings, never numbers) -/
+def repackText (rs : List Val) : Res :=
+  if Ext1.objArrayClash rs then .unmodelled else .ok (.list rs)
+
 mutual
 def implFormatRec : Val → Res
-  | .list xs =>
-    if (numShape (.list xs)).isSome then .err                 -- numeric array (also []): RecursionError
-    else match implFormatL xs with
-      | .ok (.list rs) => .ok (.list rs)
-      | .ok _ => .unmodelled
-      | e => e
+  | .list [] => .ok (.list [])                                -- is_empty(a): return a
+  | .list (x :: xs) =>
+    -- a numeric array without elements but with rows ([[]], shape (1,0)): `_is_list` is false
+    -- (size 0), `is_empty` is false (len 1): format calls itself forever — RecursionError
+    if zeroSized (.list (x :: xs)) then .err else
+    match implFormatL (x :: xs) with
+    | .ok (.list rs) => repackText rs
+    | .ok _ => .unmodelled
+    | e => e
   | a => match fmtAtom a with
     | some v => .ok v
     | none => .unmodelled                                     -- reals, dictionaries, :undefined
@@ -627,30 +654,47 @@ def formAtom : Val → Val → Option Val
 def refForm (a b : Val) : Option Val :=
   if hasEmptyList a || hasEmptyList b then none else refA2 formAtom a b
 
-/-- `__e_dyad_form` on an atom `a` and a string `b` -/
+/-! Python's `int(text)` on an ASCII text: blanks stripped, an optional sign, decimal digits with
+    single underscores between them -/
+
+def isWs (c : Nat) : Bool := (decide (9 ≤ c) && decide (c ≤ 13)) || (decide (28 ≤ c) && decide (c ≤ 32))
+
+def stripWs (s : List Nat) : List Nat := ((s.dropWhile isWs).reverse.dropWhile isWs).reverse
+
+/-- the digits of `d(_?d)*`; none = not of that form -/
+def pyDigits : List Nat → Option (List Nat)
+  | [] => none
+  | [c] => if isDigit c then some [c] else none
+  | c :: 95 :: r => if isDigit c then (pyDigits r).map (c :: ·) else none
+  | c :: d :: r => if isDigit c then (pyDigits (d :: r)).map (c :: ·) else none
+
+def pyInt (s : List Nat) : Option Int :=
+  match stripWs s with
+  | 45 :: r => (pyDigits r).map fun ds => -((digitsVal ds 0 : Nat) : Int)
+  | 43 :: r => (pyDigits r).map fun ds => ((digitsVal ds 0 : Nat) : Int)
+  | r => (pyDigits r).map fun ds => ((digitsVal ds 0 : Nat) : Int)
+
+/-- `__e_dyad_form` on an atom `a` and a string `b` (after 22bcc8e) -/
 def formAtomImpl : Val → Val → Res
-  | .sym _, .str s =>                                         -- 347–350
+  | .sym _, .str s =>                                         -- symbol template
     if s.isEmpty then .ok .undef else .ok (.sym (stripColon s))
-  | .int _, .str s =>                                         -- 351–354
+  | .int _, .str s =>                                         -- integer template
     if s.isEmpty then .ok .undef
-    else if s.contains 46 then
-      if isRealLit s then .ok .undef                          -- '.' in b and str_is_float(b)
-      else if noDigitAscii s then .err                        -- float(b) fails, then int(b): ValueError
-      else .unmodelled                                        -- Python's float() grammar
-    else
-      match parseInt s with
+    else if s.contains 46 then .ok .undef                     -- a float (:undefined) or int(b) fails: ValueError → :undefined
+    else if s.all (fun c => decide (c < 128)) then
+      match pyInt s with
       | some n => .ok (.int n)                                -- int(b)
-      | none => if noDigitAscii s then .err                   -- int(b): ValueError
-                else .unmodelled                              -- Python's int() grammar (blanks, "+", "_")
-  | .chr _, .str s =>                                         -- 359–363
+      | none => .ok .undef                                    -- except ValueError
+    else .unmodelled                                          -- non-ASCII digits and blanks
+  | .chr _, .str s =>
     match s with
     | [c] => .ok (.chr c)
     | _ => .ok .undef
-  | .str _, .str s => .ok (.str s)                            -- 364: return b
+  | .str _, .str s => .ok (.str s)                            -- return b
   | _, _ => .unmodelled
 
 /-- `vec_fn2(a, b, _e_dyad_form)`: object arrays are paired / extended element-wise; a NUMERIC
-    array against a string reaches `__e_dyad_form(array, b)`, which returns `b` (364) -/
+    array against a string reaches `_e_dyad_form(array, b)`, which maps its members (after 2fe5617) -/
 def formRec : Nat → Val → Val → Res
   | 0, _, _ => .unmodelled
   | fuel + 1, a, b =>
@@ -665,9 +709,7 @@ def formRec : Nat → Val → Val → Res
       if (numShape a).isSome && (numShape b).isSome then .unmodelled
       else if xs.length != ys.length then .err                -- assert len(a) == len(b)
       else collect ((xs.zip ys).map fun p => formRec fuel p.1 p.2)
-    | .list xs, .str _ =>
-      if (numShape a).isSome then .ok b                       -- f(a, b) → __e_dyad_form(array, b): return b
-      else collect (xs.map fun x => formRec fuel x b)
+    | .list xs, .str _ => collect (xs.map fun x => formRec fuel x b)
     | .list _, _ => .unmodelled
     | _, .list ys =>
       if (numShape b).isSome then .unmodelled
